@@ -32,6 +32,7 @@ def check(run):
     run.attempt(snapshot, run, p)
     run.attempt(encfallback, run, p)
     run.attempt(globs, run, p)
+    run.attempt(specifics, run, p)
     from .c04 import split
     run.attempt(split, run, p, p.cls('FilesComparison'))
     run.rules['C11-SPLIT'] = run.rules.pop('C04-SPLIT') + (' (the generated stdout/stderr tests compare the captured output, a raw string that '
@@ -781,6 +782,68 @@ def encfallback(run, p):
            'write_script, evaluated: each text-file test passes encoding= the encoding recorded on the FileType object%s' % (
                '' if rows and not bad else ' - not so: %s' % (bad[:1] or 'script not readable')), fn=ws, nontrivial=False)
     run.floor('C11-ENCODING', n, 1)
+
+
+def specifics(run, p):
+    from ..pyeval import Interp, Obj, Unsupported, Raised, FakeFS, pure_os
+    run.rule('C11-SPECIFICS', 'what will differ between the generating run and a later run of the test is recognised on every line that '
+                              'mentions it, wherever on the line: check_for_specific_references, evaluated on a file of lines that '
+                              'name the host, the address, the working directory, the home directory, the user and gentest\'s temporary '
+                              'directory - alone on the line, at its end, followed by a path separator, followed by other text - flags '
+                              'exactly those lines with exactly that kind, records that the temporary directory was used, and flags '
+                              'no plain line (an unflagged mention is compared verbatim by the generated test and fails on the next run)')
+    c = p.cls('TestGenerator')
+    f = c.methods['check_for_specific_references']
+    TMP = '/tmp/tmpGEN'
+    vals = {'host': 'deepthought', 'ip': 'IP.ADDR.OF.HOST', 'cwd': '/w/job', 'homedir': '/home/zaphod', 'tmpdir': TMP, 'user': 'zaphod'}
+    shapes = ['%s', 'value %s', '%s/below/it.txt', 'before %s after', '"%s"', 'x=%s;']
+    lines, want = ['a plain line', 'nothing to see here /usr/lib'], {}
+    for kind, v in vals.items():
+        for sh in shapes:
+            lines.append(sh % v)
+            w = {kind}
+            if kind == 'homedir':
+                pass                    # the user name inside the home directory is not reported again
+            want[len(lines)] = w
+    n = 0
+    for shell_var in ('TMPDIR', None):
+        fs = FakeFS({'/w/job/out.txt': '\n'.join(lines) + '\n'})
+        I = Interp(p, consts={'TMPDIR': TMP, 'TERM_TMPDIR': TMP + '/'})
+        I.safe_modules = {'re'}
+        I.extra_names.update({'open': fs.open, 'os': pure_os()})
+        g = Obj(c)
+        g.attrs.update(host=vals['host'], ip_address=vals['ip'], cwd=vals['cwd'], homedir=vals['homedir'], user=vals['user'], user_in_home=True,
+                       tmp_dir_shell_var=shell_var, tmpdir_used=False, min_time=None, max_time=None, verbose=False)
+        ft = Obj(p.cls('FileType'))
+        ft.attrs.update(binary=False, text=True, image=False, encoding=None, ext='txt')
+        try:
+            r = I.call(f, ['/w/job/out.txt', ft], {}, selfobj=g)
+        except Unsupported as e:
+            raise AnalysisError('check_for_specific_references is not evaluable: %s' % e)
+        except Raised as e:
+            run.ob('C11-SPECIFICS', 'shell-var=%s' % shell_var, False, 'check_for_specific_references raises %s' % e, fn=f)
+            n += 1
+            continue
+        items = dict(r.items.items()) if isinstance(r, Obj) else dict(r)
+        for ln, w in sorted(want.items()):
+            if shell_var is None and 'tmpdir' in w:
+                w = set()
+            sp = items.get(ln)
+            got = set()
+            if sp is not None:
+                rec = sp.attrs if isinstance(sp, Obj) else {k: getattr(sp, k, None) for k in getattr(type(sp), '_fields', ())}
+                got = {k for k in ('host', 'ip', 'cwd', 'homedir', 'tmpdir', 'user') if rec.get(k)}
+            n += 1
+            run.ob('C11-SPECIFICS', 'shell-var=%s::line=%r' % (shell_var, lines[ln - 1]), got == w,
+                   'the line %r is flagged as %s (it mentions %s)' % (lines[ln - 1], sorted(got) or 'nothing', sorted(w) or 'nothing specific'), fn=f)
+        plain = [ln for ln in (1, 2) if ln in items]
+        n += 1
+        run.ob('C11-SPECIFICS', 'shell-var=%s::plain-lines' % shell_var, not plain, 'plain lines flagged: %s' % (plain or 'none'), fn=f)
+        n += 1
+        used = g.attrs.get('tmpdir_used')
+        run.ob('C11-SPECIFICS', 'shell-var=%s::tmpdir_used' % shell_var, bool(used) == (shell_var is not None),
+               'tmpdir_used is %s after a file that mentions the temporary directory (shell variable %s)' % (used, shell_var), fn=f)
+    run.floor('C11-SPECIFICS', n, 70)
 
 
 def globs(run, p):
